@@ -82,9 +82,9 @@ def compare_cp(ck, spec, impl, model, sp, tag="cp"):
 
 def main():
     tier, seed, replay = common.parse_args(sys.argv[1:])
-    ck = Check("C10", tier, seed, ["C10"])
+    ck = Check("C10", tier, seed, ["C10", "C10Part"])
     try:
-        obligations = common.obligations_for(["C10"])
+        obligations = common.obligations_for(["C10", "C10Part"])
         vsc = common.setup_repo_path()
         from vsc.model.rangelist_model import RangelistModel
         from vsc.model.coverpoint_bin_collection_model import CoverpointBinCollectionModel
